@@ -231,7 +231,8 @@ Definition take_m {A} (m : nat) (I : list A) : result (list A) :=
 (* sample_square(Y, m, unique, seed, m_fact, max_rep) given Zt = orthogonalize(Y, 0)[0] (the same for
    every restart).  Returns the samples and, per attempt, the drawn rows and their probability
    vectors.  The recursion `sample_square(Y, m, True, seed, 2*m_fact, max_rep-1)` is the fuelled loop;
-   fuel max_rep + 2 is always enough (Proofs: sq_loop_fuel). *)
+   fuel max(max_rep + 1, 0) + 1 is always enough (Proofs: sample_square_terminates); with max_rep < 0 there is
+   exactly one attempt. *)
 Fixpoint sq_loop (fuel base : nat) (Zt : list (core T)) (m : nat) (unique : bool) (m_fact : nat) (max_rep : Z)
   : result (list (list nat) * list (list (list nat) * list (list (list T)))) :=
   match fuel with
@@ -251,6 +252,6 @@ Fixpoint sq_loop (fuel base : nat) (Zt : list (core T)) (m : nat) (unique : bool
         else rmap (fun I' => (I', [att])) (take_m m I))
   end.
 Definition sample_square (Zt : list (core T)) (m : nat) (unique : bool) (m_fact : nat) (max_rep : Z) :=
-  sq_loop (Z.to_nat (max_rep + 2)) O Zt m unique m_fact max_rep.
+  sq_loop (S (Z.to_nat (max_rep + 1))) O Zt m unique m_fact max_rep.
 
 End Sample.
